@@ -4,6 +4,7 @@ import (
 	"fmt"
 	"go/types"
 	"strings"
+	"time"
 
 	"golang.org/x/tools/go/ssa"
 )
@@ -116,6 +117,10 @@ func init() {
 		"(time.Time).String": pureFresh,
 		"time.Now":           pureFresh,
 		"time.Date": func(a *Act, st *State, c *ssa.Function, x []Val, p tokenPos) Val {
+			// a constant calendar date is its day number (proleptic Gregorian, day 0 = 0001-01-01)
+			if n, ok := civilDayNumber(x[0].T, x[1].T, x[2].T); ok {
+				return t1(intLit(n), resType(c, 0))
+			}
 			f := a.u.D.Fun("time_date", []string{"Int", "Int", "Int"}, "Int")
 			return t1(app(f, x[0].T, x[1].T, x[2].T), resType(c, 0))
 		},
@@ -502,4 +507,22 @@ func (a *Act) f64(x Term) Term {
 		a.u.Fact(fmt.Sprintf("(forall ((x Real)) (! (and (=> (>= x 0.0) (>= (%s x) 0.0)) (=> (<= x 0.0) (<= (%s x) 0.0))) :pattern ((%s x))))", f, f, f))
 	}
 	return app(f, x)
+}
+
+// civilDayNumber: days from 0001-01-01 to the given constant date (all three terms integer literals).
+func civilDayNumber(y, m, d Term) (int64, bool) {
+	var yy, mm, dd int64
+	for _, p := range []struct {
+		t Term
+		v *int64
+	}{{y, &yy}, {m, &mm}, {d, &dd}} {
+		if _, err := fmt.Sscanf(string(p.t), "%d", p.v); err != nil || strings.ContainsAny(string(p.t), "( ") {
+			return 0, false
+		}
+	}
+	if yy < 1 || yy > 9999 || mm < 1 || mm > 12 || dd < 1 || dd > 31 {
+		return 0, false
+	}
+	t := time.Date(int(yy), time.Month(mm), int(dd), 0, 0, 0, 0, time.UTC)
+	return (t.Unix() - time.Date(1, 1, 1, 0, 0, 0, 0, time.UTC).Unix()) / 86400, true
 }
